@@ -331,7 +331,7 @@ def exSP : SProgram :=
                  .ret (.mtch (.int 1) [(.values [.int 1], .int 10), (.default, .int 0)])] }] }
 
 example : (lowerProgram [] (fun _ _ _ => .bad) exSP).isSome = true := by decide
-example : FragProg exSP := ⟨by decide, by decide, by decide, by decide, by decide⟩
+example : FragProg exSP := ⟨by decide, by decide, by decide, by decide⟩
 example : FfiContract [] (fun _ _ _ => .bad) := fun mi pi m fns sig h => by simp at h
 
 /-- `function j(o option[int]) int { return match o { Some(z) => z, None => 0 } }`: a `match` without
@@ -341,7 +341,7 @@ def exSP2 : SProgram :=
     funs := [
       { name := 14, params := [(22, .optional .int)], ret := .int,
         body := [.ret (.mtch (.var 22) [(.values [.some (.var 24)], .var 24), (.values [.none], .int 0)])] }] }
-example : FragProg exSP2 := ⟨by decide, by decide, by decide, by decide, by decide⟩
+example : FragProg exSP2 := ⟨by decide, by decide, by decide, by decide⟩
 example : (lowerProgram [] (fun _ _ _ => .bad) exSP2).isSome = true := by
   simp [exSP2, lowerProgram, topoOrder, findDup, builtinSigs, builtinNames, builtinRet, List.range, List.range.loop, lowerFun,
     typeDefined, scopeAdd, lowerStmts, lowerStmt, lowerExpr, scopeGet, patsOfE, scanPats, scanVals, patEq, isVar, bindingOf,
@@ -356,7 +356,7 @@ def exSP3 : SProgram :=
       { name := 15, params := [(25, .enum 40), (26, .bool)], ret := .int,
         body := [.mtch (.var 26) [(.values [.bool true], [.ret (.int 1)]), (.values [.bool false], [])],
                  .ret (.mtch (.var 25) [(.values [.enumRef 40 42 0], .int 2), (.values [.enumRef 40 41 0], .int 3)])] }] }
-example : FragProg exSP3 := ⟨by decide, by decide, by decide, by decide, by decide⟩
+example : FragProg exSP3 := ⟨by decide, by decide, by decide, by decide⟩
 example : (lowerProgram [] (fun _ _ _ => .bad) exSP3).isSome = true := by
   simp [exSP3, lowerProgram, topoOrder, findDup, builtinSigs, builtinNames, builtinRet, List.range, List.range.loop, lowerFun,
     typeDefined, scopeAdd, lowerStmts, lowerStmt, lowerExpr, scopeGet, patsOfE, patsOfS, scanPats, scanVals, patEq, isVar, bindingOf,
@@ -375,7 +375,7 @@ def exSP4 : SProgram :=
                  .let_ 27 (.substruct (.var 23) 33),
                  .let_ 28 (.struct 30 [(32, .bool false)] [27]),
                  .ret (.substruct (.cast (.var 28) 34) 33)] }] }
-example : FragProg exSP4 := ⟨by decide, by decide, by decide, by decide, by decide⟩
+example : FragProg exSP4 := ⟨by decide, by decide, by decide, by decide⟩
 example : (lowerProgram [] (fun _ _ _ => .bad) exSP4).isSome = true := by decide
 
 /-! ### non-vacuity: `exProg2` of Props/C22 (a function with `let`, `if`, `return` and a builtin
